@@ -87,7 +87,12 @@ CHECKS = {
             "executor: unconditionally; with executor: for any executor that never under-counts... see Props/C16.lean), "
             "a doomed report always carries a message, and with a truthful executor the report is exact. " + CORR,
             "", "DESIGN.md 5/C16"),
-    "C17": (TV, "Lean model + correspondence (proofs in progress)", CORR, "", "DESIGN.md 5/C17"),
+    "C17": (TV, "Lean model + correspondence (every conformed tree also runs on SQLite) + structural oracle on every Select; supporting theorems",
+            CORR + "Supporting machine-checked theorems (Props/C17.lean): conforming a Select returns the same object; "
+            "conforming a leaf/materialization/transfer wraps it unchanged; every Select built by apply_skip records its "
+            "slots and skip target and is flagged compound iff the skip target is a chain; the relation it marks has the "
+            "rows of slice(dedup(proj(sort(skip target)))) and the recorded columns. Conform of operation nodes "
+            "(_append_*_to_select) is validated, not proved.", "", "DESIGN.md 5/C17"),
     "C18": (PR, "Lean 4 theorems over the lazy-iteration event model (exec_lazy, events_sublist, consumer frames) + correspondence",
             "Machine-checked for all lazy-only trees, leaf contents, states and consumption depths: execute() changes no "
             "state (no leaf iteration); iterating the result to any depth starts each leaf occurrence at most once, in "
